@@ -307,6 +307,12 @@ def lineof(rep, c):
             r.lost("boundary search " + path)
             continue
         chars = char_lits(fn["body"])
+        # a shared tail ("find the newline, then i + 1 or a default") may live in a helper of the same module
+        for x in walk(fn["body"]):
+            cal = callee(x) if kind(x) in ("Call", "MethodCall") else None
+            h = c.fn(cal) if isinstance(cal, str) and cal.startswith("pest::position::") and cal != fn["path"] else None
+            if h is not None and h.get("body") is not None and not h.get("exported"):
+                chars |= char_lits(h["body"])
         r.instance(key, where(fn["body"]), "%s searches for %s" % (fn["name"], sorted(chars)))
         if chars != {"\n"}:
             r.violation(key, where(fn["body"]), "%s looks for %s, the line counters end a line at '\\n' only: the line shown "
@@ -359,26 +365,23 @@ def colunit(rep, c):
     if pl is None:
         r.lost("Position::line_col")
         return
-    # assignments of the (line, col) accumulator
-    incs = []
-    for n in walk(pl["body"]):
-        if kind(n) == "Assign" and kind(peel(n["r"])) == "Tup" and len(peel(n["r"])["elems"]) == 2:
-            incs.append(n)
-    if not incs:
+    # the (line, col) updates, in the tuple-accumulator or the two-locals spelling
+    from . import c04
+    line_incs, col_steps = c04.linecol_updates(pl)
+    if not line_incs and not col_steps:
         r.lost("(line, col) updates in Position::line_col")
         return
     bad = None
-    for n in incs:
-        a, b = [peel(x) for x in peel(n["r"])["elems"]]
-        line_inc = kind(a) == "Binary" and a["op"] == "+"
-        if line_inc:
-            # new line: column restarts at 1
-            if hirq.lit_value(a["r"]) != 1 or hirq.lit_value(b) != 1:
-                bad = (n, "a line step is not (line + 1, 1)")
-        else:
-            if not (kind(b) == "Binary" and b["op"] == "+" and hirq.lit_value(b["r"]) == 1):
-                bad = (n, "a column step is not col + 1")
-    r.instance("position:unit", where(pl["body"]), "%d accumulator updates" % len(incs))
+    for (n, step, col) in line_incs:
+        if hirq.lit_value(peel(step)) != 1 or (col is not None and hirq.lit_value(peel(col)) != 1):
+            bad = (n, "a line step is not (line + 1, 1)")
+    for (n, step) in col_steps:
+        s = peel(step)
+        if kind(s) == "Binary" and s["op"] == "+":
+            s = peel(s["r"])
+        if hirq.lit_value(s) != 1:
+            bad = (n, "a column step is not col + 1 (or the reset to 1)")
+    r.instance("position:unit", where(pl["body"]), "%d line steps, %d column steps" % (len(line_incs), len(col_steps)))
     if bad:
         r.violation("position:unit", where(bad[0]), "Position::line_col: %s - columns are no longer a count of characters"
                     % bad[1])
@@ -391,6 +394,8 @@ def colunit(rep, c):
             widths.add("len_utf8")
         elif hirq.lit_value(rr) in (1, 2):
             widths.add(hirq.lit_value(rr))
+        elif kind(rr) == "If" and all(hirq.lit_value(peel(v)) in (1, 2) for v in hirq.tail_leaves(rr)):
+            widths.update(hirq.lit_value(peel(v)) for v in hirq.tail_leaves(rr))   # the CR LF step: 1 at the very start, else 2
         else:
             widths.add("?")
     r.instance("position:cursor", where(pl["body"]), str(sorted(widths, key=str)))
